@@ -2,6 +2,7 @@ package props
 
 import (
 	"fmt"
+	"time"
 
 	"verif/harness/bridge"
 	"verif/harness/ref"
@@ -224,11 +225,46 @@ func sharedNodeCases() []*ProgCase {
 	return out
 }
 
+// dupRegistrationCases: a polymorphic overload set whose members return
+// different types, with one function value registered twice.
+func dupRegistrationCases() []*ProgCase {
+	a, k, v := ref.TVar("a"), ref.TVar("k"), ref.TVar("v")
+	mk := func(ps []*ref.Ty, r *ref.Ty, out *ref.V) *ref.Fun {
+		return &ref.Fun{Name: "pk", Params: ps, Ret: r, User: "pk", Impl: func(*ref.Evaluator, *ref.Ty, []ref.Arg) *ref.V { return out }}
+	}
+	f1 := mk([]*ref.Ty{ref.TList(a)}, ref.TNum, ref.VNum(1))
+	f2 := mk([]*ref.Ty{ref.TMap(k, v)}, ref.TBool, ref.VBool(true))
+	f3 := mk([]*ref.Ty{ref.TMaybe(a)}, ref.TTime, ref.VTime(unixZero))
+	f4 := mk([]*ref.Ty{ref.TObj(ref.F("x", a))}, ref.TList(ref.TNum), ref.VList(ref.TNum, ref.VNum(4)))
+	f5 := mk([]*ref.Ty{a}, ref.TStr, ref.VStr("any"))
+	env := bridge.NewEnv()
+	env.Put("o", ref.VObj(ref.TObj(ref.F("x", ref.TNum)), ref.VNum(1)))
+	env.Put("on", ref.VJust(ref.TNum, ref.VNum(2)))
+	n1 := ref.Num("1", 1)
+	progs := []*ref.E{
+		ref.Call("pk", ref.List(n1)), ref.Call("pk", ref.Map([]*ref.E{n1}, []*ref.E{n1.Clone()})), ref.Call("pk", ref.Ident("on")),
+		ref.Call("pk", ref.Ident("o")), ref.Call("pk", n1.Clone()), ref.Call("pk", ref.Obj([]string{"x"}, []*ref.E{ref.Str("s")})),
+		ref.List(ref.Call("pk", ref.Ident("o")), ref.List(n1.Clone())), ref.CallF(ref.FInfix, "+", ref.Call("pk", ref.Str("s")), ref.Call("pk", n1.Clone())),
+	}
+	orders := [][]*ref.Fun{
+		{f1, f2, f3, f4, f5}, {f1, f1, f2, f3, f4, f5}, {f1, f2, f2, f3, f4, f5}, {f2, f1, f2, f1, f3, f3, f4, f5}, {f3, f4, f4, f1, f2, f5, f5},
+	}
+	var out []*ProgCase
+	for oi, ord := range orders {
+		for pi, p := range progs {
+			e := p.Clone()
+			out = append(out, &ProgCase{ID: fmt.Sprintf("dup-registration/%d/%d", oi, pi), Src: ref.Render(e), E: e, Env: env, User: ord})
+		}
+	}
+	return out
+}
+
 func init() {
 	run.Register(&run.Spec{
 		ID: "C01", Run: func(c *run.Ctx) {
 			both01 := func(c *run.Ctx, o *ProgObs) { oracleC01(c, o); oracleC05(c, o) }
 			fixedCases(c, sharedNodeCases(), both01)
+			fixedCases(c, dupRegistrationCases(), func(c *run.Ctx, o *ProgObs) { oracleC01(c, o); oracleC05(c, o); oracleC04(c, o) })
 			user := ref.UserFuns()
 			opt := ref.GenOpt{MaxDepth: 5, PFail: 0.02, PSugar: 0.6, PBoundary: 0.1, PGroup: 0.03, UserFuns: true}
 			stream(c, "mixed", c.Pick(5000, 120000), opt, user, 0, oracleC01)
@@ -464,6 +500,8 @@ func oracleC05(c *run.Ctx, o *ProgObs) {
 	}
 }
 
+var unixZero = time.Unix(0, 0)
+
 func tyCanon(t *ref.Ty) string {
 	if t == nil {
 		return "?"
@@ -671,7 +709,8 @@ func init() {
 			incrementalRegistration(c)
 			user := ref.UserFuns()
 			opt := ref.GenOpt{MaxDepth: 5, PFail: 0.02, PSugar: 0.6, PBoundary: 0.1, PGroup: 0.03, UserFuns: true}
-			both := func(c *run.Ctx, o *ProgObs) { oracleC05(c, o); oracleC02(c, o) }
+			both := func(c *run.Ctx, o *ProgObs) { oracleC05(c, o); oracleC02(c, o); oracleC04(c, o) }
+			fixedCases(c, dupRegistrationCases(), both)
 			stream(c, "welltyped", c.Pick(6000, 250000), opt, user, 0, both)
 			stream(c, "mutant", c.Pick(12000, 400000), opt, user, 1.0, both)
 			fixedCases(c, overloadCases(), both)
